@@ -12,10 +12,12 @@ tie    : (a) `cond run` path: the scheduling engine (sched_checks.run_prop) -- t
              the loaded tasks nobody depends on, in dict order).
 """
 import itertools
+import json
 import os
 import pathlib
+import shutil
 
-from common import pack, ser_list, ser_n, run_packed_cases, clist, setup_impl_path
+from common import pack, ser_list, ser_n, run_packed_cases, clist, setup_impl_path, new_dir
 from sched_checks import run_prop
 from sched_engine import all_small_graphs, rand_dag, add_defects
 from sched_util import Case, Task, write_project, ident, task_of_ident, IMPORTS, impl
@@ -155,6 +157,64 @@ def validate_part(chk, tier):
     chk.coverage["traces_validated_against_impl"] += agree
 
 
+def explorer_loading(chk):
+    """Whole-project validation as the explorer performs it: TaskIndex.load_all_known_tasks(git) -- the COND files that
+    `git ls-files` reports -- followed by validate_all_loaded_tasks().  Two layouts of the same three projects (sound,
+    cyclic, dangling): the Conductor project is the repository root / a sub-directory of the repository.  In both, the
+    sound project must be accepted with exactly its root tasks and all its tasks loaded, the other two rejected."""
+    import subprocess
+    from common import PY, SRC
+
+    driver = ("import json, pathlib, sys\n"
+              "from conductor.context import Context\n"
+              "from conductor.errors import ConductorError\n"
+              "ctx = Context(pathlib.Path(sys.argv[1]))\n"
+              "idx = ctx.task_index\n"
+              "res = idx.load_all_known_tasks(ctx.git)\n"
+              "try:\n"
+              "    roots = sorted(str(r) for r in idx.validate_all_loaded_tasks())\n"
+              "    print(json.dumps({'verdict': 'accepted', 'roots': roots, 'tasks': sorted(str(k) for k in idx.get_all_loaded_tasks().keys()), 'files': len(res)}))\n"
+              "except ConductorError as ex:\n"
+              "    print(json.dumps({'verdict': type(ex).__name__}))\n")
+    projects = {
+        "sound": ({"COND": 'run_command(name="top", run="true", deps=["//p:mid"])\n', "p/COND": 'run_command(name="mid", run="true", deps=[":leaf"])\nrun_command(name="leaf", run="true")\n'},
+                  {"verdict": "accepted", "roots": ["//:top"], "tasks": ["//:top", "//p:leaf", "//p:mid"]}),
+        "cyclic": ({"COND": 'run_command(name="top", run="true", deps=["//p:mid"])\n', "p/COND": 'run_command(name="mid", run="true", deps=[":leaf"])\nrun_command(name="leaf", run="true", deps=[":mid"])\n'},
+                   {"verdict": "CyclicDependency"}),
+        "dangling": ({"COND": 'run_command(name="top", run="true", deps=["//p:gone"])\n', "p/COND": 'run_command(name="mid", run="true")\n'},
+                     {"verdict": "TaskNotFound"}),
+    }
+    for layout in ("project = repository root", "project in a sub-directory of the repository"):
+        for name, (files, want) in projects.items():
+            base = new_dir("explorer")
+            repo = os.path.join(base, "repo")
+            root = repo if layout.startswith("project = ") else os.path.join(repo, "artifact")
+            os.makedirs(root)
+            for rel, text in dict(files, **{"cond_config.toml": "", ".gitignore": "cond-out\n"}).items():
+                pth = os.path.join(root, rel)
+                os.makedirs(os.path.dirname(pth), exist_ok=True)
+                open(pth, "w").write(text)
+            for argv in (["init", "-q", "-b", "main"], ["config", "user.email", "v@example.org"], ["config", "user.name", "v"], ["add", "-A"], ["commit", "-q", "-m", "c0"]):
+                subprocess.run(["git"] + argv, cwd=repo, check=True, capture_output=True)
+            drv = os.path.join(base, "driver.py")
+            open(drv, "w").write(driver)
+            r = subprocess.run([PY, drv, root], cwd=root, env=dict(os.environ, PYTHONPATH=SRC), capture_output=True, text=True)
+            chk.coverage["evaluations"] += 1
+            chk.count("explorer loading", layout)
+            try:
+                got = json.loads(r.stdout.strip().splitlines()[-1])
+            except (ValueError, IndexError):
+                got = {"verdict": "crash", "output": (r.stdout + r.stderr)[-300:]}
+            ok = got.get("verdict") == want["verdict"] and all(got.get(k) == v for k, v in want.items())
+            if not ok:
+                chk.violation("impl-violation", "whole-project validation (load_all_known_tasks + validate_all_loaded_tasks), %s, %s project: got %r, expected %r" % (layout, name, got, want),
+                              {"input": {"part": "explorer-loading", "layout": layout, "files": files}, "impl_observation": got, "oracle_verdict": "expected %r" % (want,)},
+                              match_key={"explorer": layout}, size=3)
+            else:
+                chk.coverage["traces_validated_against_impl"] += 1
+            shutil.rmtree(base, ignore_errors=True)
+
+
 def cli_part(chk, tier):
     """through the command line (cli/run.py), where the closure is loaded before anything is planned: a project that
     ran successfully is edited so that the graph BELOW an already recorded (cached) experiment becomes defective;
@@ -254,6 +314,7 @@ def both_parts(chk, tier):
     scope_part(chk, tier)
     validate_part(chk, tier)
     cli_part(chk, tier)
+    explorer_loading(chk)
 
 
 def run(tier, seed, replay=None):
